@@ -309,6 +309,14 @@ def _reductions(model):
                 m = (k, ctcs)
                 if emit(m):
                     yield m
+    # rename a specially named feature to a plain one
+    all_names = [f[0] for f in features(model)]
+    for nm in all_names:
+        if not (isinstance(nm, str) and nm.isalnum() and nm.isascii() and len(nm) == 2 and nm[0].isupper() and nm[1].islower()):
+            plain = next(p for p in ('Fa', 'Bb', 'Dc', 'Ad', 'Ee', 'Cf', 'Gg', 'Ah', 'Zi', 'Bj', 'Mk', 'Cl', 'Xx', 'Yy') if p not in all_names)
+            m = _rename_everywhere(model, nm, plain)
+            if emit(m):
+                yield m
     # drop a constraint / replace a constraint by a sub-tree
     for i, (n, t) in enumerate(ctcs):
         m = (root, ctcs[:i] + ctcs[i + 1:])
@@ -380,3 +388,17 @@ def tree_normalize_vars(t, order=('x', 'y', 'z', 'u', 'v', 'w')):
             return mapping[head] + dot + rest
         return u
     return ren(t)
+
+
+def _rename_everywhere(model, old, new):
+    def ren_f(f):
+        return (new if f[0] == old else f[0], tuple((a, b, tuple(ren_f(k) for k in kids)) for (a, b, kids) in f[1]),
+                f[2], f[3], f[4], f[5])
+
+    def ren_t(t):
+        if t is None:
+            return None
+        if isinstance(t, tuple):
+            return (t[0], ren_t(t[1]), ren_t(t[2]))
+        return new if t == old else t
+    return (ren_f(model[0]), tuple((n, ren_t(t)) for n, t in model[1]))
